@@ -319,7 +319,7 @@ class StackPartition(Concat):
                 else:
                     dsk[(self._name, ctr)] = (
                         apply,
-                        methods.concat,
+                        _align_partition,
                         [
                             [meta, (df._name, i)],
                             self.axis,
@@ -334,6 +334,18 @@ class StackPartition(Concat):
 
     def _lower(self):
         return
+
+
+def _align_partition(dfs, *args, **kwargs):
+    meta = dfs[0]
+    out = methods.concat(dfs, *args, **kwargs)
+    # the concatenation only takes the index names of the (empty) meta if there
+    # are columns to concatenate besides categorical ones
+    if out.index.nlevels == meta.index.nlevels and list(out.index.names) != list(
+        meta.index.names
+    ):
+        out.index = out.index.set_names(meta.index.names)
+    return out
 
 
 class StackPartitionInterleaved(StackPartition):
